@@ -49,8 +49,10 @@ Definition model_obs (p : pt) (S : list N) (G : list trafo) : obs :=
             (isort win_leb (windows prog))
   end.
 
+Definition ov_eqb (a b : oq) : bool :=
+  match a, b with Some x, Some y => Qeq_bool x y | None, None => true | _, _ => false end.
 Definition samples_eqb (a b : list (chan * list oq)) : bool :=
-  list_eqb (fun x y => N.eqb (fst x) (fst y) && list_eqb oq_eqb (snd x) (snd y)) a b.
+  list_eqb (fun x y => N.eqb (fst x) (fst y) && list_eqb ov_eqb (snd x) (snd y)) a b.
 
 Definition obs_eqb (a b : obs) : bool :=
   match a, b with
@@ -95,7 +97,7 @@ Definition transformed_obs (G : list trafo) (plain opt : obs) : bool :=
       (d1 =? d2) && list_eqb win_eqb w1 w2
       && list_eqb N.eqb c2 (isort N.leb (chain_out G c1))
       && forallb (fun c =>
-           forallb (fun k => oq_eqb (sample_at s2 k c) (chain_apply G (sample_at s1 k) c))
+           forallb (fun k => ov_eqb (sample_at s2 k c) (chain_apply G (sample_at s1 k) c))
                    (seq 0 (Z.to_nat d1))) c2
   | _, _ => false
   end.
